@@ -1,6 +1,6 @@
 (* C02 - decompiled Lingo denotes the compiled statements and expressions.  Property theorems only. *)
 From Coq Require Import ZArith List String.
-From DRX Require Import Py.PyBytes Model.LingoAst Model.LingoGen Model.LingoOps Spec.SpecLingo Proofs.LingoExecFacts.
+From DRX Require Import Py.PyBytes Model.LingoAst Model.LingoGen Model.LingoOps Model.LingoLoop Spec.SpecLingo Proofs.LingoExecFacts Proofs.LingoStmtFacts.
 Import ListNotations.
 Open Scope Z_scope.
 
@@ -24,3 +24,21 @@ Theorem C02_expression_whole :
     exists r', run_ops (ninstr e + fuel) d off (zlen (compile_e e)) off r m = Ok (r', after_e en off e m).
 Proof. exact exec_whole. Qed.
 Print Assumptions C02_expression_whole.
+
+(* Statements: a straight-line handler - any sequence of assignments to locals, parameters, globals and
+   properties and of statement-position calls to external and local handlers, followed by the handler's exit
+   opcode - decompiles to exactly the reified statement list (same statements, same order, each with its
+   target kind and its expression tree), records the globals it uses in order of first use, leaves the stack
+   empty, and the control-flow passes (condition_detect, loop_detect) leave that list untouched. *)
+Theorem C02_straight_line_handler :
+  forall en props l d off fuel r m,
+    wf_body en l -> agrees_p en props m -> m_stack m = [] -> f_stmts (m_fn m) = [] ->
+    code_at d off (compile_straight l) ->
+    let pexit := off + zlen (compile_body l) in
+    let sts := reify_body en props off l ++ [Stmt pexit (Call "exit" pexit None true false false)] in
+    exists r' m',
+      run_ops (fold_right (fun s n => ninstr_s s + n)%nat 0%nat l + (1 + fuel)) d off (zlen (compile_straight l)) off r m = Ok (r', m') /\
+      f_stmts (m_fn m') = sts /\ detect sts = Ok sts /\
+      f_globals (m_fn m') = add_globals (f_globals (m_fn m)) (globals_body en off l) /\ m_stack m' = [].
+Proof. exact straight_handler. Qed.
+Print Assumptions C02_straight_line_handler.
